@@ -28,13 +28,18 @@ pub fn oracle(case: &SpCase, res: &SpResult, soft: &mut Vec<(String, String)>) -
     let mut loss_seen = false; // any RTO retransmission or possible recovery so far
     let mut rto_pending: Option<(i32, u64)> = None; // (rel seq retransmitted by timeout, n_rx at that time)
     let mut last_rx_t: Option<u64> = None;
+    let mut t_arm_latest: Option<u64> = None; // last instant at which the retransmission timer was (re)armed for sure
     let mut first_tx_count = 0u32;
     let mut wnd_values: Vec<u32> = vec![case.peer_wnd];
     let mut zero_seen = false;
     let mut handshake_done = false;
+    let app_writes: Vec<(u64, u64)> = res.app.iter().filter_map(|a| if let crate::sim::app::AppEv::Wrote(n) = a.ev { Some((a.t_us, n as u64)) } else { None }).collect();
     let app_write_times: BTreeSet<u64> = res.app.iter().filter(|a| matches!(a.ev, crate::sim::app::AppEv::Wrote(_))).map(|a| a.t_us).collect();
 
+    let mut t_arm_next: Option<u64> = None;
     for ev in sp::events(res) {
+        let t_ev = match &ev { Ev::Rx(r, _) | Ev::Tx(r, _) => r.t_us };
+        if let Some(a) = t_arm_next { if t_ev > a { t_arm_latest = Some(t_arm_latest.map_or(a, |x| x.max(a))); t_arm_next = None; } }
         match ev {
             Ev::Rx(r, p) => {
                 if p.conn_id != res.id_to_sock && p.ptype != refparse::ST_SYN { continue; }
@@ -42,7 +47,10 @@ pub fn oracle(case: &SpCase, res: &SpResult, soft: &mut Vec<(String, String)>) -
                 handshake_done = true;
                 obs.on_rx(r.t_us, p);
                 last_rx_t = Some(r.t_us);
-                if obs.st.poss_recovery { loss_seen = true; labels.insert("possible_recovery"); }
+                if obs.st.t_last_advance == r.t_us { t_arm_latest = Some(r.t_us); }
+                if obs.st.poss_recovery { labels.insert("possible_recovery"); }
+                if obs.st.poss_loss_event { loss_seen = true; labels.insert("possible_loss_event"); }
+                else if obs.st.ever_sack { labels.insert("sack_without_loss_event"); }
                 if wnd_values.last() != Some(&p.wnd) {
                     if p.wnd == 0 { zero_seen = true; labels.insert("zero_window"); }
                     else if zero_seen && wnd_values.last() == Some(&0) { labels.insert("zero_window_then_reopen"); }
@@ -61,8 +69,16 @@ pub fn oracle(case: &SpCase, res: &SpResult, soft: &mut Vec<(String, String)>) -
                 let ambiguous = last_rx_t == Some(r.t_us);
                 // emitted at an instant with neither a peer packet nor an application write:
                 // only a timer can have caused it
+                // ... and it may have caused it when a stimulus happens to fall on the very instant the retransmission
+                // timer expires. That timer is (re)armed when data is sent and when an ack advances, and runs for at
+                // least 200 ms: if the last such event is >= 200 ms back, the known timer-path finding (F9) may explain
+                // what is emitted at this instant, whatever else happened at it.
+                // (a timer is pending only while bytes accepted from the application before this instant are unacknowledged)
+                let written_before: u64 = app_writes.iter().filter(|(t, _)| *t < r.t_us).map(|(_, n)| *n).sum();
+                let timer_possible = t_arm_latest.is_some_and(|a| r.t_us >= a + 200_000) && written_before > obs.st.acked_bytes.min(obs.prev.acked_bytes);
                 let timer_driven = !ambiguous && !app_write_times.contains(&r.t_us);
-                let sig = |generic: &str| if timer_driven { F9_SIG.to_string() } else { format!("sp/{generic}") };
+                let f9_possible = timer_driven || timer_possible;
+                let sig = |generic: &str| if f9_possible { F9_SIG.to_string() } else { format!("sp/{generic}") };
                 let highest_before = obs.highest;
                 let mut loss_seen_next = false;
                 let (k, kind) = obs.on_tx_data(r.t_us, p);
@@ -83,29 +99,30 @@ pub fn oracle(case: &SpCase, res: &SpResult, soft: &mut Vec<(String, String)>) -
                 match kind {
                     TxKind::First => {
                         first_tx_count += 1;
-                        if timer_driven {
-                            // sent by the retransmission-timer path (see F9): for the implementation
+                        if f9_possible {
+                            // (possibly) sent by the retransmission-timer path (see F9): for the implementation
                             // this was a timeout, i.e. a loss event, whatever the oracle thinks of it
                             loss_seen_next = true;
                             labels.insert("first_tx_by_timer");
                         }
                         // (b) zero window: no new payload at all
                         if states.iter().all(|s| s.wnd == 0) {
-                            { let d = format!("log #{}: first transmission of seq {} ({} bytes) while the last window processed is 0", r.idx, p.seq, p.payload.len()); if timer_driven { if soft.len() < 4 { soft.push((F9_SIG.to_string(), d)); } } else { return (Some((sig("new-payload-at-zero-window"), d)), vec![], false, 0); } }
+                            { let d = format!("log #{}: first transmission of seq {} ({} bytes) while the last window processed is 0", r.idx, p.seq, p.payload.len()); if f9_possible { if soft.len() < 4 { soft.push((F9_SIG.to_string(), d)); } } else { return (Some((sig("new-payload-at-zero-window"), d)), vec![], false, 0); } }
                         }
                         // (a) outside possible loss recovery outstanding <= last advertised window
                         let viol_a = states.iter().all(|s| !s.poss_recovery && !obs.prev.poss_recovery && obs.outstanding(s, k) > s.wnd as u64);
                         if viol_a {
                             let s = &states[0];
-                            { let d = format!("log #{}: after the first transmission of seq {} ({} bytes) {} bytes are outstanding but the window last advertised by the peer is {}", r.idx, p.seq, p.payload.len(), obs.outstanding(s, k), s.wnd); if timer_driven { if soft.len() < 4 { soft.push((F9_SIG.to_string(), d)); } } else { return (Some((sig("outstanding-exceeds-window"), d)), vec![], false, 0); } }
+                            { let d = format!("log #{}: after the first transmission of seq {} ({} bytes) {} bytes are outstanding but the window last advertised by the peer is {}", r.idx, p.seq, p.payload.len(), obs.outstanding(s, k), s.wnd); if f9_possible { if soft.len() < 4 { soft.push((F9_SIG.to_string(), d)); } } else { return (Some((sig("outstanding-exceeds-window"), d)), vec![], false, 0); } }
                         }
                         // (c) before the first loss event: outstanding <= 2*mss + acked bytes
                         if !loss_seen {
                             // (one or two segments outstanding are always within "two segments", whatever their size: an MTU probe is one segment)
-                            let viol_c = states.iter().all(|s| obs.outstanding(s, k) > 2 * s.mss_now as u64 + s.acked_bytes && obs.segs.range((s.cum + 1)..=k).count() > 2);
+                            // (selectively acknowledged bytes are acknowledged bytes)
+                            let viol_c = states.iter().all(|s| obs.outstanding(s, k) > 2 * s.mss_now as u64 + s.acked_bytes + obs.sacked_bytes(s) && obs.segs.range((s.cum + 1)..=k).count() > 2);
                             if viol_c {
                                 let s = &states[0];
-                                { let d = format!("log #{}: before any loss event {} bytes are outstanding after sending seq {}, more than 2*mss ({}) + acknowledged bytes ({})", r.idx, obs.outstanding(s, k), p.seq, s.mss_now, s.acked_bytes); if timer_driven { if soft.len() < 4 { soft.push((F9_SIG.to_string(), d)); } } else { return (Some((sig("slow-start-exceeded"), d)), vec![], false, 0); } }
+                                { let d = format!("log #{}: before any loss event {} bytes are outstanding after sending seq {}, more than 2*mss ({}) + acknowledged bytes ({} cumulatively, {} selectively)", r.idx, obs.outstanding(s, k), p.seq, s.mss_now, s.acked_bytes, obs.sacked_bytes(s)); if f9_possible { if soft.len() < 4 { soft.push((F9_SIG.to_string(), d)); } } else { return (Some((sig("slow-start-exceeded"), d)), vec![], false, 0); } }
                             }
                             labels.insert("slow_start_checked");
                         }
@@ -127,6 +144,8 @@ pub fn oracle(case: &SpCase, res: &SpResult, soft: &mut Vec<(String, String)>) -
                     }
                 }
                 if loss_seen_next { loss_seen = true; }
+                // (arming at this emission takes effect for later instants only)
+                t_arm_next = Some(r.t_us);
                 fp.add(((k as u64) << 20) ^ (p.payload.len() as u64) ^ ((obs.st.wnd as u64).min(1 << 20) << 40));
             }
         }
@@ -164,13 +183,53 @@ impl CheckDef for Sp {
     }
 }
 
+/// Slow start with reordering: the peer acknowledges cumulatively, now and then reporting one or two
+/// packets held out of order (a single SACK-bearing ACK followed by plain ones: never a loss event).
+pub struct SpReorder;
+impl CheckDef for SpReorder {
+    type Case = Case;
+    const NAME: &'static str = "sp-reorder";
+    fn strategy(tier: Tier) -> BoxedStrategy<Case> {
+        let max_steps = tier.pick(60usize, 140);
+        (txgen::tx_sock_cfg(), any::<bool>(), any::<u16>(), any::<u16>(), any::<u64>())
+            .prop_flat_map(move |(sock, incoming, peer_isn, conn_id, key)| {
+                use crate::sim::app::WOp;
+                use crate::sim::sp::{PeerOp, Step};
+                let w = 4u32 << 20;
+                let plain = (prop_oneof![4 => Just(1u16), 2 => 2u16..4, 1 => 4u16..12]).prop_map(move |adv| vec![Step::Peer(PeerOp::AckAdv { adv, wnd: w, sack: None }), Step::Adv(1)]);
+                // one honest SACK-bearing ack (1 or 2 packets held, the first or a later one), then at least one plain ack
+                let reorder = (0u16..3, 0u8..4, 1u8..3, 1u16..4)
+                    .prop_map(move |(adv1, skip, count, adv2)| vec![Step::Peer(PeerOp::SackHeld { adv: adv1, skip, count, wnd: w }), Step::Adv(1), Step::Peer(PeerOp::AckAdv { adv: adv2, wnd: w, sack: None }), Step::Adv(1)]);
+                let write = (2000u32..60_000).prop_map(|n| vec![Step::W(WOp::Write { n, chunk: 1 << 20 })]);
+                let pause = (1u32..30).prop_map(|ms| vec![Step::Adv(ms)]);
+                let block = prop_oneof![5 => plain, 3 => reorder, 1 => write, 1 => pause];
+                prop::collection::vec(block, 4..max_steps / 2).prop_map(move |blocks| {
+                    let mut steps = vec![Step::R(crate::sim::app::ROp::ReadToEnd { buf: 4096 }), Step::W(WOp::Write { n: 200_000, chunk: 1 << 20 })];
+                    for b in blocks { steps.extend(b); }
+                    Case { sp: SpCase { sock: sock.clone(), incoming, peer_isn, conn_id, peer_wnd: w, complete_handshake: true, key, steps, linger_ms: 100, discipline: true, bystander: None } }
+                })
+            })
+            .boxed()
+    }
+    fn run(case: &Case, trace: bool) -> Outcome {
+        let mut o = Sp::run(case, trace);
+        if !o.is_violation() {
+            // what matters here: the slow-start clause stayed armed although SACKs were seen
+            o.nontrivial = o.labels.contains(&"sack_without_loss_event") && o.labels.contains(&"slow_start_only");
+        }
+        o
+    }
+}
+
 pub fn run(ctx: &mut Ctx) {
     ctx.rule("SP: the endpoint writes generated amounts/chunks; the scripted peer answers with generated cumulative ACK schedules and window values (growing, shrinking, zero, re-opening, < mss), withheld ACKs (-> RTO); MSS/buffer/Nagle varied, half of the cases without MTU probing. Oracle at every first transmission (wire-log order; a peer packet injected at the same instant is evaluated both as processed and as unprocessed): outstanding <= last window outside possible recovery, nothing new at window 0, outstanding <= 2*mss + acked before the first loss event, a single segment after an RTO until an advancing ack. non-trivial = >=3 window values incl. a shrink or zero and >=10 first transmissions; distinct by hash of (seq, len, window) sequence");
     ctx.assume("'possibly in loss recovery' is a conservative superset (2nd duplicate or any SACK until the ack passes the highest seq sent then)");
     ctx.replay_corpus::<Sp>();
-    ctx.run_generated::<Sp>(ctx.tier.pick(6_000, 200_000));
+    ctx.replay_corpus::<SpReorder>();
+    ctx.run_generated::<Sp>(ctx.tier.pick(40_000, 1_500_000));
+    ctx.run_generated::<SpReorder>(ctx.tier.pick(20_000, 600_000));
 }
 
 pub fn replay(v: &Value) -> Option<i32> {
-    replay_file::<Sp>("C05", v)
+    replay_file::<Sp>("C05", v).or_else(|| replay_file::<SpReorder>("C05", v))
 }
